@@ -526,11 +526,22 @@ pub unsafe fn exec<T: Payload + 'static>(cx: *mut Ctx<T>, a: Act) -> Res {
             Err(_) => res(R_ERR),
         },
         A_DROP_S => {
-            (*cx).s[h] = None;
+            // d == 1: the handle ends its life as an AsyncSender (its own Drop impl)
+            let x = (*cx).s[h].take();
+            if a.d == 1 {
+                drop(x.map(|s| s.to_async()));
+            } else {
+                drop(x);
+            }
             RES0
         }
         A_DROP_R => {
-            (*cx).r[h] = None;
+            let x = (*cx).r[h].take();
+            if a.d == 1 {
+                drop(x.map(|r| r.to_async()));
+            } else {
+                drop(x);
+            }
             RES0
         }
         A_OBSERVE => {
